@@ -389,7 +389,28 @@ func (g *gen) base() []UtxoSpec {
 	return b
 }
 
+// ctxUsable reports whether the header built from c gives positive rewards (the model takes R, Q as naturals).
+func ctxUsable(c CtxSpec) (ok bool) {
+	defer func() {
+		if recover() != nil {
+			ok = false
+		}
+	}()
+	buildCtx(c)
+	return true
+}
+
 func (g *gen) ctx() CtxSpec {
+	c := g.ctx0()
+	if !ctxUsable(c) {
+		d := defaultCtx()
+		d.Elig, d.RLim, d.PLim, d.GasLimit = c.Elig, c.RLim, c.PLim, c.GasLimit
+		return d
+	}
+	return c
+}
+
+func (g *gen) ctx0() CtxSpec {
 	c := defaultCtx()
 	c.Height = 1000
 	switch g.r.Pick(10, 3, 3, 2, 2, 2) {
@@ -417,7 +438,7 @@ func (g *gen) ctx() CtxSpec {
 	if g.r.Chance(10) {
 		c.PLim = uint64(g.r.Intn(8)) * params.TxGas
 	}
-	if g.r.Chance(20) {
+	if g.r.Chance(20) && ctxUsable(c) {
 		// a base fee that puts the fee floor of a plain transaction at a few qits
 		b := buildCtx(c)
 		perQit := new(bigInt).Quo(b.R, b.Q)
